@@ -163,9 +163,12 @@ def render(rng, specs, regs, fault, files, flat):
           nb = rng.randint(0, min(2, len(cls2)))
           before = [(a, G.gen_value(rng, 1)) for a in cls2[:nb]]
           after = [(a, G.gen_value(rng, 1)) for a in cls2[nb:nb + rng.randint(0, 2)]] + [('nope2', 5)][:rng.randint(0, 1)]
+          if before and rng.random() < 0.5:
+            # a parameter set before the failing member and once more after it: the later one never takes effect
+            after = after + [(before[rng.randrange(len(before))][0], {'s': 'set again after the failure'})]
           bad_arg = reg2['deny'][0] if (reg2['deny'] and rng.random() < 0.5) else 'nope'
           sc = rng.choice(['', 'a'])
-          S.add_block(b, sc, reg2['_selector'], before + [(bad_arg, 1)] + after)
+          S.add_block(b, sc, reg2['_selector'], before + [(bad_arg, 1)] + after, rng)
           if before:
             flat.append(('block', sc, reg2['_selector'], before))
       elif kind == 'ambiguous_cfg':
@@ -211,7 +214,7 @@ def render(rng, specs, regs, fault, files, flat):
       S.add_binding(b, '', sp[1], '', sp[2], rng)
       flat.append(sp)
     elif sp[0] == 'block':
-      S.add_block(b, sp[1], sp[2], sp[3])
+      S.add_block(b, sp[1], sp[2], sp[3], rng)
       flat.append(sp)
     elif sp[0] == 'regimport':
       b.add('import ' + sp[1], {'k': 'import', 'module': sp[1], 'found': True, 'regs': [sp[2]]})
